@@ -27,8 +27,18 @@ Start(rec) == [r |-> Unpack(rec.pre), mem |-> Oracle(rec.acc), io |-> IoOracle(r
 Undecided(rec) ==
     FALSE        \* (none at present; tstb with a bit index >= 32 was undefined C++ until the fix in /repo)
 
-RecOk(rec) ==
-    LET s1 == CoreCycle(Start(rec)) IN
+\* C01, generator clause: a vector emitted by the project's own hardware-test generator (loaded the way the
+\* project's verifier loads it, program at 0) executes without aborting, advances pc by the instruction's
+\* length, and touches data memory only inside the two windows the hardware verifier compares
+InWindow(ph) == (ph >= DataBase + 25600 /\ ph < DataBase + 25600 + 512) \/ (ph >= DataBase + 52224 /\ ph < DataBase + 52224 + 512)
+GenClause(rec, s1) ==
+    LET i == Decode(rec.op)
+        len == IF i # 0 /\ NeedExpRow[i] THEN 2 ELSE 1 IN
+    /\ s1.out \in {"ok", "unimpl"}
+    /\ s1.out = "ok" => /\ s1.r.pc = len
+                         /\ \A j \in len + 1 .. Len(s1.acc) : InWindow(s1.acc[j][1])
+
+Conforms(rec, s1) ==
     \/ Undecided(rec)
     \/ /\ s1.out # "unmodelled"
        /\ s1.out = rec.out
@@ -37,6 +47,8 @@ RecOk(rec) ==
             /\ s1.acc = rec.acc
             /\ (IF s1.idle THEN 1 ELSE 0) = rec.idle
             /\ s1.lat = rec.lat2
+RecOkWith(rec, s1) == Conforms(rec, s1) /\ (("gen" \in DOMAIN rec) => GenClause(rec, s1))
+RecOk(rec) == RecOkWith(rec, CoreCycle(Start(rec)))
 
 TraceInit == vL = 1
 TraceNext == vL <= Len(Log) /\ RecOk(Rec) /\ vL' = vL + 1
